@@ -14,10 +14,11 @@ Definition t_rsa_enc (h seed m : bytes) : option bytes :=
   if (length m <=? 32)%nat && wfb m then Some ([1; Z.of_nat (length m)] ++ m ++ repeat 0 (32 - length m)) else None.
 Definition t_rsa_dec (h c : bytes) : option bytes :=
   match c with _ :: l :: r => Some (firstn (Z.to_nat l) r) | _ => None end.
-Definition t_ecdh_gen (h seed : bytes) : option (bytes * bytes) := Some (64 :: seed, h ++ seed).
+Definition t_ecdh_gen (h seed : bytes) : option (bytes * bytes) :=
+  if wfb seed && (length seed <=? 100)%nat then Some (64 :: seed, h ++ seed) else None.
 Definition t_ecdh_shared (h v : bytes) : option bytes := Some (h ++ skipn 1 v).
 Definition t_hash (a : Z) (x : bytes) : option bytes := Some (repeat (sumz x mod 256) 32).
-Definition t_wrap (z x : bytes) : option bytes := Some (z ++ x).
+Definition t_wrap (z x : bytes) : option bytes := if (length (z ++ x) <? 256)%nat then Some (z ++ x) else None.
 Definition t_unwrap (z c : bytes) : option bytes := Some (skipn (length z) c).
 Definition t_s2k (kind h : Z) (salt : bytes) (count : Z) (n : nat) (pass : bytes) : option bytes :=
   Some (repeat ((sumz pass + sumz salt) mod 256) n).
@@ -40,20 +41,33 @@ Proof. induction n; cbn; constructor; [lia|assumption]. Qed.
 Lemma t_rsa_ok h seed m c : t_rsa_enc h seed m = Some c ->
   wf_bytes c /\ Z.of_nat (length c) = t_rsa_bits h / 8 /\ t_rsa_bits h < 65536 /\ t_rsa_dec h c = Some m.
 Proof.
-  unfold t_rsa_enc. destruct ((length m <=? 32)%nat) eqn:L; [|discriminate].
+  unfold t_rsa_enc. remember (32 - length m)%nat as pad eqn:Hp.
+  destruct ((length m <=? 32)%nat) eqn:L; [|discriminate].
   destruct (wfb m) eqn:W; [|discriminate]. cbn [andb]. intros [= <-].
-  apply wfb_iff in W. split; [|split; [|split]].
+  apply wfb_iff in W. apply Nat.leb_le in L. split; [|split; [|split]].
   - constructor; [lia|]. constructor; [lia|]. apply wf_bytes_app. split; [exact W|apply wf_repeat0].
-  - cbn [app length]. rewrite app_length, repeat_length. unfold t_rsa_bits. change (272 / 8) with 34. lia.
+  - unfold t_rsa_bits. change (272 / 8) with 34.
+    cbn [length]. rewrite app_length, repeat_length. lia.
   - reflexivity.
   - cbn [t_rsa_dec app]. rewrite Nat2Z.id. rewrite firstn_app_exact by reflexivity. reflexivity.
 Qed.
 
 Lemma t_ecdh_ok h seed v s : t_ecdh_gen h seed = Some (v, s) -> t_ecdh_shared h v = Some s.
-Proof. unfold t_ecdh_gen, t_ecdh_shared. intros [= <- <-]. reflexivity. Qed.
+Proof. unfold t_ecdh_gen, t_ecdh_shared. destruct (_ && _); [|discriminate]. intros [= <- <-]. reflexivity. Qed.
+
+Lemma t_ecdh_point h seed v s : t_ecdh_gen h seed = Some (v, s) ->
+  wf_bytes v /\ Z.of_nat (length v) <= 8000 /\ exists r, (v = 4 :: r /\ Nat.even (length r) = true) \/ v = 64 :: r.
+Proof.
+  unfold t_ecdh_gen. destruct (wfb seed) eqn:W; [|discriminate]. destruct ((length seed <=? 100)%nat) eqn:L; [|discriminate].
+  cbn [andb]. intros [= <- <-]. apply wfb_iff in W. apply Nat.leb_le in L.
+  split; [constructor; [lia|exact W]|]. split; [cbn [length]; lia|]. exists seed. right. reflexivity.
+Qed.
 
 Lemma t_wrap_ok z x c : t_wrap z x = Some c -> t_unwrap z c = Some x.
-Proof. unfold t_wrap, t_unwrap. intros [= <-]. rewrite skipn_app_exact by reflexivity. reflexivity. Qed.
+Proof. unfold t_wrap, t_unwrap. destruct (_ <? _)%nat; [|discriminate]. intros [= <-]. rewrite skipn_app_exact by reflexivity. reflexivity. Qed.
+
+Lemma t_wrap_short z x c : t_wrap z x = Some c -> (length c < 256)%nat.
+Proof. unfold t_wrap. destruct (length (z ++ x) <? 256)%nat eqn:L; [|discriminate]. intros [= <-]. apply Nat.ltb_lt. exact L. Qed.
 
 (* ---------- one concrete run ---------- *)
 Definition t_key1 : pkey := {| k_id := [1;1;1;1;1;1;1;1]; k_alg := 1; k_fp := [7]; k_oid := []; k_kdf_hash := 0; k_kdf_enc := 0 |}.
@@ -70,7 +84,7 @@ Definition t_m : bytes := [203; 3; 98; 0; 104].
 
 Definition t_encrypt := encrypt_to t_sha1 t_cfb_enc t_rsa_enc t_ecdh_gen t_hash t_wrap t_s2k 7 t_sk t_iv t_rs t_m.
 Definition t_decrypt := decrypt_with t_sha1 t_cfb_dec t_rsa_bits t_rsa_dec t_ecdh_shared t_hash t_unwrap t_s2k.
-Definition t_target : bytes := t_m ++ mdc_bytes (t_sha1 (t_iv ++ lastn 2 t_iv ++ t_m ++ [211; 20])).
+Definition t_target : bytes := t_m.
 
 Lemma toy_run :
   exists es ct, t_encrypt = Ok (es, Some ct) /\ length es = 4%nat /\
